@@ -404,7 +404,7 @@ func (s *state) visitFunction(node *ast.FunctionNode) {
 		// TODO: Add compile-time check that this is only called on loop variable.
 		s.js("(", s.scope.loopindex(loopVarOf(node)), " == 0)")
 	case "isLast":
-		s.js("(", s.scope.loopindex(loopVarOf(node)), " == ", s.scope.looplimit(loopVarOf(node)), " - 1)")
+		s.js(s.scope.looplast(loopVarOf(node)))
 	case "index":
 		s.js(s.scope.loopindex(loopVarOf(node)))
 	default:
@@ -562,13 +562,17 @@ func (s *state) visitForRange(node *ast.ForNode) {
 
 	// the arguments of range() are not in the scope of the loop variable.
 	var limitJs, initJs, incrementJs = s.block(limit), s.block(init), s.block(increment)
-	var varIndex,
-		varLimit = s.scope.pushForRange(node.Var)
+	var varName,
+		varLimit,
+		varStep,
+		varIndex = s.scope.pushForRange(node.Var)
 	defer s.scope.pop()
 	s.jsln("var ", varLimit, " = ", limitJs, ";")
-	s.jsln("for (var ", varIndex, " = ", initJs, "; ",
-		varIndex, " < ", varLimit, "; ",
-		varIndex, " += ", incrementJs, ") {")
+	s.jsln("var ", varStep, " = ", incrementJs, ";")
+	// isFirst / isLast / index count iterations, as they do in a foreach.
+	s.jsln("for (var ", varName, " = ", initJs, ", ", varIndex, " = 0; ",
+		varName, " < ", varLimit, "; ",
+		varName, " += ", varStep, ", ", varIndex, "++) {")
 	s.indentLevels++
 	s.walk(node.Body)
 	s.indentLevels--
